@@ -16,15 +16,26 @@ type Token struct {
 	V int    `json:"v"`
 }
 
-// snapshot of the input columns (v UInt64, s String) at some version
+// EnumType is the type of the third input column; EnumNames are its names.
+const EnumType = "Enum8('a' = 1, 'bb' = 2, 'c c' = 3)"
+
+var EnumNames = []string{"a", "bb", "c c"}
+
+// snapshot of the input columns (v UInt64, s String, e Enum8) at some version
 type contents struct {
 	V []uint64
 	S []string
+	E []string
 }
 
 func (c contents) equal(o contents) bool {
-	if len(c.V) != len(o.V) || len(c.S) != len(o.S) {
+	if len(c.V) != len(o.V) || len(c.S) != len(o.S) || len(c.E) != len(o.E) {
 		return false
+	}
+	for i := range c.E {
+		if c.E[i] != o.E[i] {
+			return false
+		}
 	}
 	for i := range c.V {
 		if c.V[i] != o.V[i] {
@@ -98,6 +109,10 @@ func Tokenize(data []byte, rev int, compressed bool, versions map[int]contents) 
 							for i := 0; i < d.Rows(); i++ {
 								got.S = append(got.S, d.Row(i))
 							}
+						}
+					case *proto.ColEnum:
+						if c.Name == "e" {
+							got.E = append(got.E, d.Values...)
 						}
 					}
 				}
